@@ -23,7 +23,7 @@ ASSUMPTIONS = ['the per-cell oracle is the real two-signature function (the prop
 REACH = ['gambit.metric:jaccarddist_array', 'gambit.metric:jaccarddist_matrix', 'gambit.metric:jaccarddist_pairwise',
          'gambit.util.misc:chunk_slices', 'gambit.sigs.base:ConcatenatedSignatureArray._getitem_slice',
          'gambit.sigs.base:ConcatenatedSignatureArray._getitem_int_array']
-CONTAINERS = ['sigarray', 'sigarray-view', 'siglist', 'pylist', 'annotated', 'hdf5']
+CONTAINERS = ['sigarray', 'sigarray-view', 'siglist', 'pylist', 'annotated', 'hdf5', 'pylist-mixed', 'siglist-mixed']
 JOBS = {'quick': 8, 'thorough': 12}
 
 
@@ -34,6 +34,8 @@ def shards(tier, seed):
 		active = tier == 'thorough' and i % 8 == 1   # spinning waiters under oversubscription are very slow on a loaded machine: thorough tier only
 		out.append(dict(name=f'cfg-{i}', kind='cfg', sub=i, ncoll=(3 if active else 10) if tier == 'quick' else (4 if active else 16), nconf=70 if tier == 'quick' else 160,
 		                reps=5 if tier == 'quick' else 50, env={'OMP_NUM_THREADS': '16', 'OMP_WAIT_POLICY': 'active' if active else 'passive'}))
+	for i in range(2 if tier == 'quick' else 8):
+		out.append(dict(name=f'siglist-history-{i}', kind='slhist', sub=300 + i, nhist=15 if tier == 'quick' else 60, env={'OMP_NUM_THREADS': '4'}))
 	out.append(dict(name='asan-cfg', kind='cfg', sub=500, ncoll=3 if tier == 'quick' else 10, nconf=40 if tier == 'quick' else 120, reps=2, sanitizer='asan',
 	                env={'OMP_NUM_THREADS': '8'}))
 	out.append(dict(name='tsan-cfg', kind='tsan', sub=600, ncoll=3 if tier == 'quick' else 8, nconf=25 if tier == 'quick' else 80, sanitizer='tsan',
@@ -86,6 +88,11 @@ def build_container(kind, sigs, dt, ctx, tag):
 		assert isinstance(c, SignatureArray)
 	elif kind == 'siglist':
 		c = SignatureList(arrs, ks, dtype=np.dtype(dt))
+	elif kind in ('pylist-mixed', 'siglist-mixed'):
+		# references of different integer widths in one list (a list-backed collection only records the type of its first element)
+		r_ = random.Random(tag)
+		arrs = [np.array(s, dtype=r_.choice(M.DTYPES)) for s in sigs]
+		c = list(arrs) if kind == 'pylist-mixed' else SignatureList(list(arrs), ks)
 	elif kind == 'pylist':
 		c = list(arrs)
 	elif kind == 'annotated':
@@ -277,6 +284,8 @@ def run_shard(sh, ctx):
 		return
 	if sh['kind'] == 'tsan':
 		return run_tsan(sh, ctx, gm)
+	if sh['kind'] == 'slhist':
+		return run_siglist_history(sh, ctx, gm)
 
 	from gambit._cython.threads import omp_set_num_threads, omp_get_max_threads, get_thread_ids
 	rng = random.Random(f'C05-{ctx.seed}-{sh["sub"]}')
@@ -298,7 +307,7 @@ def run_shard(sh, ctx):
 		smp = dict(n_refs=n, sizes=[len(s) for s in coll][:20], query_dtype=qdt, n_queries=len(qarrs))
 		for cont_kind in CONTAINERS:
 			dt = rng.choice(M.DTYPES)
-			if cont_kind in ('pylist', 'hdf5') and n == 0:
+			if cont_kind in ('pylist', 'hdf5', 'pylist-mixed', 'siglist-mixed') and n == 0:
 				continue  # SignatureList([]) without k-mer parameters cannot be built by a caller either
 			tag = f'c{ci}-{cont_kind}-{dt}'
 			cobj, rarrs, closer = build_container(cont_kind, coll, dt, ctx, tag)
@@ -356,6 +365,58 @@ def run_tsan(sh, ctx, gm):
 			cmp_bits(ctx, out, exp, 'cell-bits', 'array under TSan', dict(ci=ci, k=k))
 
 
+def run_siglist_history(sh, ctx, gm):
+	"""The same SignatureList object is handed to the bulk functions, mutated (append / insert / extend / += / setitem / delitem /
+	pop / reverse), and handed to them again: every result must reflect the list as it is *now*."""
+	from gambit.sigs.base import SignatureList
+	from gambit.kmers import KmerSpec
+	rng = random.Random(f'C05-slhist-{ctx.seed}-{sh["sub"]}')
+	ks = KmerSpec(8, 'AT')
+	for h in range(sh['nhist']):
+		dt = rng.choice(M.DTYPES)
+		model = [np.array(s, dtype=dt) for s in gen_collection(rng, rng.randint(1, 10))]
+		sl = SignatureList(list(model), ks, dtype=np.dtype(dt))
+		q = np.array(sorted(rng.sample(range(400), 20)), dtype=rng.choice(M.DTYPES))
+		trace = []
+		for step in range(rng.randint(4, 14)):
+			new = lambda: np.array(sorted(rng.sample(range(400), rng.randint(0, 25))), dtype=dt)
+			n = len(model)
+			op = rng.choice(['append', 'insert', 'extend', 'iadd', 'setitem', 'delitem', 'pop', 'reverse', 'none'])
+			if op == 'append':
+				v = new(); sl.append(v); model.append(v)
+			elif op == 'insert':
+				i = rng.randint(0, n); v = new(); sl.insert(i, v); model.insert(i, v)
+			elif op == 'extend':
+				vs = [new(), new()]; sl.extend(vs); model.extend(vs)
+			elif op == 'iadd':
+				vs = [new()]; sl += vs; model += vs
+			elif op == 'setitem' and n:
+				i = rng.randrange(n); v = new(); sl[i] = v; model[i] = v
+			elif op == 'delitem' and n > 1:
+				i = rng.randrange(n); del sl[i]; del model[i]
+			elif op == 'pop' and n > 1:
+				sl.pop(); model.pop()
+			elif op == 'reverse':
+				sl.reverse(); model.reverse()
+			trace.append(op)
+			exp = np.array([np.float32(gm.jaccarddist(q, r)) for r in model], dtype='f4')
+			fn = rng.choice(['array', 'array', 'matrix', 'pairwise'])
+			w = dict(history=trace[-12:], fn=fn, n=len(model))
+			if fn == 'array':
+				out = np.full(len(model), np.nan, dtype='f4') if rng.random() < 0.5 else None
+				got = gm.jaccarddist_array(q, sl, out=out)
+			elif fn == 'matrix':
+				got = gm.jaccarddist_matrix([q], sl, chunksize=rng.choice([None, 2]))[0]
+			else:
+				got = gm.jaccarddist_pairwise(sl)
+				exp = np.array([[0 if i == j else np.float32(gm.jaccarddist(a, b)) for j, b in enumerate(model)] for i, a in enumerate(model)], dtype='f4').reshape(len(model), len(model))
+			ctx.evals += 1
+			ctx.count('siglist_history_steps')
+			if not cmp_bits(ctx, got, exp, 'cell-bits', f'{fn} on a SignatureList after {op}', w):
+				break
+		ctx.case(('slhist', sh['sub'], h, trace), nontrivial=True, sample=dict(history=trace) if h == 0 else None)
+
+
 def filter_tsan(logs):
 	"""DESIGN.md 2.4: a report counts only if both accesses have their innermost gambit frame inside an
 	._omp_fn. function and at least one of the two source lines is not a '#pragma omp' line."""
@@ -404,7 +465,7 @@ def finalize(merged, tier, seed, inconclusive):
 	for k in CONTAINERS:
 		if c.get(f'container:{k}', 0) == 0:
 			inconclusive.append(f'container never exercised: {k}')
-	for n in ['calls:array', 'calls:matrix', 'calls:pairwise', 'canary_checks', 'repetitions', 'index_kind:repeats', 'chunking:1', 'chunking:>n', 'pairwise:flat', 'pairwise:square', 'wide_queries_beyond_narrow_reference_range']:
+	for n in ['calls:array', 'calls:matrix', 'calls:pairwise', 'canary_checks', 'repetitions', 'index_kind:repeats', 'chunking:1', 'chunking:>n', 'pairwise:flat', 'pairwise:square', 'wide_queries_beyond_narrow_reference_range', 'siglist_history_steps', 'container:pylist-mixed']:
 		if c.get(n, 0) == 0:
 			inconclusive.append(f'class never observed: {n}')
 	tc = merged['sets'].get('thread_counts', set())
